@@ -15,6 +15,14 @@ EXPL = ('Decides: (1) the rating guards of GEXTest.run evaluated by the ordering
         'explanatory note is added iff it changed the result; (4) the OpenSSH-2048 note and suppression fire exactly under the documented conjunction. (5) GEXTest.run is abstractly interpreted against every monotone server moduli policy over subsets of {512..8192} (all 512 subsets) in the strict and OpenSSH-fallback styles x banner x algorithm with _send_init summarised by the policy: the recorded size equals the smallest modulus handed out over the fixed probe sequence (follow-up answer for OpenSSH at 2048) and the table row is rated by the thresholds. Not decided: the bit length arithmetic and servers outside these policy families.')
 
 
+class _StructError(Exception):
+    pass
+
+
+class _ValueErr(Exception):
+    pass
+
+
 def run(repo, rep, tier):
     rep.explanation = EXPL
     gr = repo.func('gextest', 'GEXTest.run')
@@ -170,25 +178,119 @@ def run(repo, rep, tier):
             rep.check('measured', 'the exception handler leaves the sentinel', not assigns, h, 'handler sets a size: %s' % [unparse(a) for a in assigns])
     sg = repo.func('kexdh', 'KexGroupExchange.send_init_gex')
     rep.saw(sg)
-    chk = [n for n in walk_no_nested(sg) if isinstance(n, ast.If) and 'packet_type not in' in unparse(n.test)]
-    ok = len(chk) == 1 and unparse(chk[0].test) == 'packet_type not in [Protocol.MSG_KEXDH_GEX_GROUP, Protocol.MSG_DEBUG]' and isinstance(chk[0].body[-1], ast.Raise) and 'KexDHException' in unparse(chk[0].body[-1])
-    rep.check('measured', 'send_init_gex raises KexDHException unless the reply is the group message (or a debug message)', ok, chk[0] if chk else sg, 'message type check changed')
-    sp = [n for n in walk_no_nested(sg) if isinstance(n, ast.Call) and 'set_params' in unparse(n.func)]
-    ok = len(sp) == 1 and [unparse(a) for a in sp[0].args] == ['g', 'p']
-    pd = [n for n in walk_no_nested(sg) if isinstance(n, ast.Assign) and unparse(n.targets[0]) == 'p']
-    ok = ok and len(pd) == 1 and 'payload[ptr:ptr + p_len]' in unparse(pd[0].value)
-    rep.check('measured', 'the modulus is set only from the parsed group message', ok, sp[0] if sp else sg, 'set_params source changed')
+    # send_init_gex by interpretation: a scripted reply (group message with a modulus of k bits / another message type / debug messages first / a short
+    # payload) -> what reaches set_params and send_init, or the exception.  The server may hand out a group outside the requested range (RFC 4419 lets it
+    # round up to the nearest group it has): that is a measurement, not a refusal.
+    import binascii as _binascii
+    import struct as _struct
+    from sa.consteval import ConstEnv as _CE3
+    from props import _hostkey_rating as _hk
+    from sa.abseval import Opaque as _Opq
+    proto = _hk.class_consts(repo, _CE3(repo), 'protocol', 'Protocol')
+    for need in ('Protocol.MSG_KEXDH_GEX_GROUP', 'Protocol.MSG_DEBUG', 'Protocol.MSG_KEXDH_GEX_REQUEST'):
+        if need not in proto:
+            raise AnalysisError('anchor vanished: %s' % need)
+    sgp = [a_.arg for a_ in sg.args.args]
+    if sgp[:2] != ['self', 's'] or len(sgp) != 5:
+        raise AnalysisError('send_init_gex: parameters are %s' % sgp)
+
+    def gex_run(script, rng):
+        """script = [(message type, payload)] answered by read_packet in order -> (outcome, [events])"""
+        pending = list(script)
+        events = []
+
+        def hook(call, e, interp):
+            t = call_name(call) or unparse(call.func)
+            if t == 's.read_packet':
+                if not pending:
+                    return (True, (-1, b''))
+                return (True, pending.pop(0))
+            if t in ('s.write_byte', 's.write_int', 's.send_packet', 's.write_mpint2', 's.write'):
+                if t != 's.send_packet' and call.args:
+                    events.append((t, interp.value(call.args[0], e)))
+                return (True, None)
+            if t == 'struct.unpack':
+                args = [interp.value(a_, e) for a_ in call.args]
+                try:
+                    return (True, _struct.unpack(*args))
+                except _struct.error as ex:
+                    raise _StructError(str(ex))
+            if t == 'binascii.hexlify' and len(call.args) == 1:
+                v = interp.value(call.args[0], e)
+                if isinstance(v, bytes):
+                    return (True, _binascii.hexlify(v))
+            if t == 'int' and len(call.args) == 2:
+                a_, b_ = [interp.value(x, e) for x in call.args]
+                if isinstance(a_, (bytes, str)) and isinstance(b_, int):
+                    try:
+                        return (True, int(a_, b_))
+                    except ValueError:
+                        raise _ValueErr('int() of an empty field')
+            if isinstance(call.func, ast.Attribute) and call.func.attr in ('set_params', 'send_init') and isinstance(call.func.value, (ast.Call, ast.Name)) and 'super' in unparse(call.func.value) + 'super' * (unparse(call.func.value) in ('self', 'KexDH')):
+                events.append((call.func.attr, tuple(interp.value(a_, e) for a_ in call.args)))
+                return (True, None)
+            if isinstance(call.func, ast.Attribute) and call.func.attr == 'bit_length' and not call.args:
+                v = interp.value(call.func.value, e)
+                if isinstance(v, int):
+                    return (True, v.bit_length())
+            if t in ('traceback.format_exc', 'str'):
+                return (True, '')
+            if t.endswith('out.d') or t.endswith('out.v'):
+                return (True, None)
+            return None
+        env = dict(proto)
+        env.update({'self': _Opq(), 's': _Opq()})
+        env.update(dict(zip(sgp[2:], rng)))
+        try:
+            finals = Interp(call_hook=hook, try_normal_path=True, budget=50000).run(sg.body, env)
+        except _StructError as ex:
+            return 'struct.error', events
+        except _ValueErr as ex:
+            return 'ValueError', events
+        except Unknown as ex:
+            raise AnalysisError('send_init_gex cannot be interpreted: %s' % ex)
+        if len(finals) != 1 or finals[0].get('<forks>'):
+            raise AnalysisError('send_init_gex does not evaluate on a single path (forks %s)' % [f_.get('<forks>') for f_ in finals][:2])
+        fe = finals[0]
+        if fe.get('<crash>'):
+            return 'crash: %s' % fe['<crash>'], events
+        return ('raise' if fe.get('<outcome>') == 'raise' else 'return'), events
+
+    def group_msg(bits, g=2):
+        pb = ((1 << (bits - 1)) | 0x0f3b).to_bytes((bits + 7) // 8 + 1, 'big')       # leading zero byte as in an mpint with the top bit set
+        gb = bytes([g])
+        return _struct.pack('>I', len(pb)) + pb + _struct.pack('>I', len(gb)) + gb
+    GROUP, DEBUG = proto['Protocol.MSG_KEXDH_GEX_GROUP'], proto['Protocol.MSG_DEBUG']
+    ranges = [(512, 512, 512), (2048, 2048, 2048), (4096, 4096, 4096), (2048, 3072, 4096), (1024, 2048, 8192)]
+    badm = []
+    ncase = 0
+    for rng in ranges:
+        for bits in (512, 1024, 2048, 3072, 4096, 6144, 8192):
+            for pre in (0, 2):
+                outcome, evs = gex_run([(DEBUG, b'dbg')] * pre + [(GROUP, group_msg(bits))], rng)
+                ncase += 1
+                req = [v for t_, v in evs if t_ == 's.write_int'][:3]
+                sets = [v for t_, v in evs if t_ == 'set_params']
+                want_p = (1 << (bits - 1)) | 0x0f3b
+                inits = [v for t_, v in evs if t_ == 'send_init']
+                if outcome != 'return' or sets != [(2, want_p)] or len(inits) != 1 or req != list(rng):
+                    badm.append((rng, bits, pre, outcome, 'set_params%s' % ([(g_, p_.bit_length()) for g_, p_ in sets if isinstance(p_, int)],), req))
+    rep.check('measured', 'send_init_gex requests the given range and measures every group the server hands out (%d range x modulus x debug-prefix cases, moduli inside and outside the requested range)' % ncase, not badm, sg,
+              'send_init_gex does not measure the group it was handed: requested (min, preferred, max) = %s, server answers a %d-bit group after %d debug message(s): outcome %s, %s, request sent %s -- a server that rounds the request up to the groups it has (RFC 4419) is reported without a modulus size, or with a wrong one' % (badm[0] if badm else ((), 0, 0, None, None, None)),
+              stmt='send_init_gex measures the group', sample={'rule': 'measured', 'cases': ncase})
+    refused = []
+    for script, what in (([(1, b'\x00\x00\x00\x02')], 'a disconnect message'), ([(-1, b'')], 'a closed connection'), ([(20, group_msg(2048))], 'a message of another type (20)'), ([(DEBUG, b'd'), (-1, b'')], 'a debug message, then a closed connection'),
+                         ([(GROUP, b'\x00\x00')], 'a group message cut inside the length field'), ([(GROUP, b'')], 'an empty group message')):
+        outcome, evs = gex_run(script, (2048, 3072, 4096))
+        ncase += 1
+        if outcome == 'return' or [1 for t_, v in evs if t_ == 'set_params' and isinstance(v[1], int) and v[1] > 0 and outcome == 'return']:
+            refused.append((what, outcome, [t_ for t_, v in evs if t_ in ('set_params', 'send_init')]))
+    rep.check('measured', 'send_init_gex leaves through an exception when the reply is not a complete group message', not refused, sg,
+              'send_init_gex returns normally on %s (outcome %s, calls %s): _send_init then reads a modulus that was not handed out in this probe' % (refused[0] if refused else (None,) * 3),
+              stmt='send_init_gex refusals')
     gm = repo.func('kexdh', 'KexDH.get_dh_modulus_size')
     r = [x for x in walk_no_nested(gm) if isinstance(x, ast.Return)]
     rep.check('measured', 'get_dh_modulus_size is the bit length of the stored modulus', len(r) == 1 and unparse(r[0].value) in ('len(bin(self.__p)) - 2', 'self.__p.bit_length()'), gm, 'get_dh_modulus_size returns %s' % (unparse(r[0].value) if r else '?'))
-    # every NORMAL return of send_init_gex has passed set_params(g, p) with the freshly parsed group: a probe that got no
-    # group must leave through an exception, otherwise _send_init reads the modulus of the previous probe
-    csg = CFG(sg, exc_edges=False)
-    gates = csg.stmts_matching(lambda st: isinstance(st, ast.Expr) and 'set_params(g, p)' in unparse(st))
-    pth = csg.find_path([csg.entry], [csg.exit], avoid=gates)
-    rep.check('measured', 'send_init_gex returns normally only after setting the modulus from the group it just parsed', pth is None and bool(gates), sg,
-              'send_init_gex can return without a freshly parsed group (e.g. when the peer hangs up after the request): the key-exchange object keeps the previous probe\'s modulus and _send_init reports it as measured',
-              witness=describe_path(pth) if pth else None)
     spf = repo.func('kexdh', 'KexDH.set_params')
     rep.check('measured', 'set_params stores p', 'self.__p = p' in unparse(spf), spf, 'set_params changed')
 
